@@ -329,9 +329,17 @@ func (r *run) EvaluateTemplateText(template string, escaping excellent.Escaping,
 		log(events.NewWarning(w))
 	}
 	if truncate {
-		value = stringsx.TruncateEllipsis(value, r.Session().Engine().Options().MaxTemplateChars)
+		value = truncateEllipsis(value, r.Session().Engine().Options().MaxTemplateChars)
 	}
 	return value, err == nil
+}
+
+// truncates the given string to the given limit, adding an ellipsis if the limit leaves room for one
+func truncateEllipsis(s string, limit int) string {
+	if limit < 3 {
+		return stringsx.Truncate(s, limit)
+	}
+	return stringsx.TruncateEllipsis(s, limit)
 }
 
 // EvaluateTemplate is a convenience function for evaluating as text with truncating but no escaping
